@@ -130,6 +130,11 @@ def replay(case):
             else:
                 from productmd.rpms import Rpms
                 m2 = Rpms()
+                if rot % 2:
+                    # the object has read a current-layout manifest before (stored as given - here with a 'src' tree, as other
+                    # tools wrote them): reading the 0.3 document replaces that content
+                    m2.loads(json.dumps({"header": {"version": "1.1", "type": "productmd.rpms"}, "payload": {"compose": dict(COMPOSE), "rpms": {
+                        "Old": {"src": {"old-0:1-1.src": {"old-0:1-1.src": {"path": "Old/source/old.src.rpm", "sigkey": None, "category": "source"}}}}}}}))
                 m2.loads(doc03_text(ev["doc"], names, arches, "rpm" if rot % 3 == 2 else "canon"))
                 m = m2
         except (ValueError, TypeError) as e:
